@@ -86,6 +86,10 @@ func H17_writeTo() {
 func H17_persist() {
 	sb, _, sp := vSmallSegment()
 	path := vP("p.zap")
+	if vBool("preexisting") {
+		// an older, shorter file is already at the path (a longer one would keep its tail: outside the claim)
+		vFSPut(path, []byte{1, 2, 3})
+	}
 	vFSFailWrites(path)
 	err := sb.Persist(path)
 	vFSDisarm()
@@ -162,7 +166,15 @@ func H18_cancel() {
 	var drops []*roaring.Bitmap
 	var want *sSpec
 	var wantSyn *sSynSpec
-	if vChoice("input", 2) == 0 {
+	input := vChoice("input", 3)
+	if input == 2 {
+		// every document of every input deleted: the merge writes nothing but must still honour cancellation
+		segs, _, _ = vMergeInputs()
+		d0, d1 := roaring.New(), roaring.New()
+		d0.AddMany([]uint32{0, 1})
+		d1.Add(0)
+		drops = []*roaring.Bitmap{d0, d1}
+	} else if input == 0 {
 		segs, drops, want = vMergeInputs()
 	} else {
 		// synonym segments: two terms per thesaurus so that the per-term polls are reached
@@ -196,6 +208,11 @@ func H18_cancel() {
 	if err != nil {
 		vAssert(err == segment.ErrClosed, "err-is-closed")
 		vAssert(!vFSExists(path), "error-no-file")
+		return
+	}
+	if input == 2 {
+		// not cancelled: the nothing-survives result itself is the subject of a recorded finding of C05
+		vAssert(vCancelPolls() != 0, "zero-survivor-merge-polls-the-channel")
 		return
 	}
 	if want != nil {
